@@ -147,13 +147,13 @@ theorem gate_walk (o : Opts) (file : List Message) (hf : FileScope file) :
 
 theorem gateScope_of {o : Opts} {files : List (List Message)} (h : csvUnambiguousB o files = true) :
     ∀ f ∈ files, gateScopeB o f = true := by
-  simp only [csvUnambiguousB, Bool.and_eq_true, Bool.not_eq_true', List.all_eq_true] at h
-  exact fun f hf => (h.2 f hf).2
+  simp only [csvUnambiguousB, Bool.and_eq_true, List.all_eq_true] at h
+  exact fun f hf => (h f hf).2
 
 /-- every sequence that comes back is non-empty and passes the gate -/
 theorem gate_files (o : Opts) (files : List (List Message)) (h : csvUnambiguousB o files = true) :
     (expected o files).all (fun q => !q.isEmpty && gateSeq [] [] q) = true := by
-  obtain ⟨_, hfs⟩ := fileScope_of h
+  have hfs := fileScope_of h
   simp only [expected, List.all_eq_true, List.mem_map, forall_exists_index, and_imp, forall_apply_eq_imp_iff₂, Bool.and_eq_true]
   intro f hf
   have hg := gateScope_of h f hf
